@@ -21,7 +21,9 @@
   `vocab_ascii`           every ASCII keyword (connecter, copula, punctuation, set bracket, atom prefix) of the
                           regenerated table is read whole by the corresponding grammar rule.
   `layout_ascii`          the ASCII layout characters are the grammar's literals.
-  `readme_en_same`        the grammar block of README.en.md is the grammar block of README.md (found D7).
+  `readme_en_same`        the grammar block of README.en.md is the grammar block of README.md (found D7);
+  `ascii_conforms_en`     the semantics depends on a grammar only through its lookups (`ev_congr`), so the theorem holds
+                          for the English block as well.
   `ascii_reading_unique`  the semantics is deterministic (`grammar_deterministic`), so the reading above is the ONLY
                           one: the grammar classifies the string as this kind and this tree and no other.
 
@@ -34,6 +36,7 @@ import Proofs.Peg.Vocab2
 import Proofs.Peg.Enum
 import Proofs.Peg.Det
 import Proofs.Peg.K3
+import Proofs.Peg.Congr
 import Props.C02b
 import Props.C03b
 import Props.C11b
@@ -98,6 +101,17 @@ theorem ascii_conforms_enum (x : Narsese) (h : gValOKB Gen.asciiL (toLexN Gen.as
     Reads Gen.readmeGrammar (Gen.asciiE.fmtNarsese x) (toLexN Gen.asciiE x) := by
   rw [efmt_eq_lfmt C03.agree_ascii spaces_ascii x]
   exact ascii_conforms _ h
+
+/-- the two published blocks have the same rule and class lookups … -/
+theorem readme_en_lookups (n : String) : Gen.readmeGrammar.rule? n = Gen.readmeGrammarEn.rule? n := by
+  have h := readme_en_same
+  simp only [Bool.and_eq_true, List.all_eq_true, decide_eq_true_eq] at h
+  exact rule_lookup_eq (G := Gen.readmeGrammar) (G' := Gen.readmeGrammarEn) h.1 h.2 n
+
+/-- … hence **C11 for the grammar as published in README.en.md** -/
+theorem ascii_conforms_en (v : LNarsese) (h : gValOKB Gen.asciiL v = true) :
+    Reads Gen.readmeGrammarEn (Gen.asciiL.fmtNarsese v) v :=
+  reads_congr readme_en_lookups (fun _ => rfl) (ascii_conforms v h)
 
 /-! ### non-vacuity, and the finding -/
 
